@@ -149,10 +149,12 @@ EXPECTED = {
     "Omega": (-1, 1, 0), "DerOmega": (-1, 1, 1), "Der2Omega": (-1, 1, 2), "Der3E": (1, 1, 3), "Der2Spin": (-1, 1, 2),
     "Morb_H": (-1, 1, 0), "Morb_Hpm": (-1, 1, 0), "DerMorb_H": (-1, 1, 1), "DerMorb": (-1, 1, 1), "Der2Morb_H": (-1, 1, 2), "Der2Morb": (-1, 1, 2),
     "SpinOmega": (1, 1, 0),          # spin (odd) times curvature (odd) under time reversal
+    "QuantumMetric_ab": (1, 1, 0), "DerQuantumMetric_ab_d": (1, 1, 1),
 }
+EXPECTED_ELEM = {"Eavln": (1, 1, 0), "InvMass": (1, 1, 2), "DerWln": (1, 1, 3)}
 
 
-@unit("C08", "declared parities of the formula classes = parity of the base quantity x (-1)^(number of k-derivatives)", scope="shape:12 formula classes", expect_min=2)
+@unit("C08", "declared parities of the formula classes = parity of the base quantity x (-1)^(number of k-derivatives)", scope="shape:17 formula classes", expect_min=2)
 def _declared(U):
     import ast
     from pyvc.extract import read_source, find_def
@@ -161,8 +163,10 @@ def _declared(U):
 
     def body():
         bad, seen = [], 0
-        for cls, (ptr, pinv, nder) in EXPECTED.items():
-            node, _c = find_def(tree, cls)
+        src_e, _ = read_source(F_ELEM)
+        tree_e = ast.parse(src_e)
+        for cls, (ptr, pinv, nder) in list(EXPECTED.items()) + list(EXPECTED_ELEM.items()):
+            node, _c = find_def(tree_e if cls in EXPECTED_ELEM else tree, cls)
             init = [n for n in node.body if isinstance(n, ast.FunctionDef) and n.name == "__init__"][0]
             got = {}
             for st in ast.walk(init):
@@ -174,7 +178,7 @@ def _declared(U):
             if got != want:
                 bad.append((cls, got, want))
         U.ensure("every listed formula class assigns exactly the expected pair of transformations in its constructor", not bad)
-        U.ensure("12 classes inspected", seen == 12)
+        U.ensure("17 classes inspected", seen == 17)
         return bad
     U.run(body, check_feasible=False)
     U.functions.extend(dict(qualname=F_COV + "::" + c + ".__init__", file=F_COV, lines=[0, 0], sha256="constructor assignments read from the AST", dropped=[], rewritten=[]) for c in EXPECTED)
@@ -209,6 +213,165 @@ def _tab(U):
                  kw == {"transformTR": "TR-of-formula", "transformInv": "INV-of-formula"} and d.shape == (2, 3, 3)
                  and rnp.allclose(d[0, 0], [2.0, 2.0, 4.0]) and rnp.allclose(d[0, 1], [2.0, 4.0, 2.0]) and rnp.allclose(d[1, 2], [4.0, 6.0, 0.0]))
     U.run(body, check_feasible=False)
+
+
+# ------------------------------------------------------------------ formula level: the real formula code on symbolic ingredients at k and -k
+F_FORM = "wannierberri/formula/formula.py"
+F_UT = "wannierberri/utility.py"
+NB = 3
+ENERG = [0.0, 1.5, 4.0]          # generic, non-degenerate, exactly representable band energies (same at k and -k)
+
+# how the Hamiltonian-gauge matrices of a symmetric model at -k follow from those at k (gauge U(-k) = conj U(k) resp. U(-k) = P U(k)):
+#   time reversal :  X(-k) = eps  * conj(X(k)),  eps = table parity (x (-1) per k-derivative); position-like AA, BB: eps = +1 at order 0
+#   inversion     :  X(-k) = eta  *      X(k) ,  eta = table parity (x (-1) per k-derivative); position-like AA, BB: eta = -1 at order 0
+POSITION_LIKE = {"AA": (1, -1), "BB": (1, -1)}
+
+
+def assemble(U, relpath, names, registry, g):
+    import ast
+    from pyvc.extract import read_source, class_bases
+    src, _ = read_source(relpath)
+    tree = ast.parse(src)
+    for nm in names:
+        bases = tuple(registry[b] for b in class_bases(tree, nm) if b in registry)
+        gl = dict(g)
+        gl.update(registry)
+        registry[nm] = U.klass(relpath, nm, globs=gl, rewrite_comps=False, bases=bases)
+        # classes defined earlier must see the ones defined later too (module scope)
+    for c in registry.values():
+        for v in c.__dict__.values():
+            fr = getattr(v, "fget", None) or getattr(v, "func", None) or getattr(v, "__func__", None) or v
+            if hasattr(fr, "__globals__"):
+                for k_, c_ in registry.items():
+                    fr.__globals__.setdefault(k_, c_)
+    return registry
+
+
+def formula_world(U):
+    NP = Shim()
+    ce = U.fn(F_UT, "cached_einsum", globs=dict(np=NP, EINSUM_PATH_CACHE={}), model=False, rewrite_comps=False)
+    T = U.klass(F_PS, "Transform", globs=dict(np=NP), rewrite_comps=False)
+    TP = U.klass(F_PS, "TransformProduct", globs=dict(np=rnp, Transform=T), rewrite_comps=False, bases=(T,))
+    TI, TO = T(), T(factor=-1)
+    g = dict(np=NP, abc=abc, cached_einsum=ce, alpha_A=rnp.array([1, 2, 0]), beta_A=rnp.array([2, 0, 1]), transform_ident=TI, transform_odd=TO, TransformProduct=TP)
+    reg = {}
+    assemble(U, F_FORM, ["Formula", "Formula_ln", "Matrix_ln", "Matrix_GenDer_ln"], reg, g)
+    assemble(U, F_ELEM, ["Eavln", "DEinv_ln", "InvMass", "DerWln", "Dcov", "DerDcov"], reg, g)
+    assemble(U, F_COV, ["Omega", "DerOmega", "Der3E", "Hamiltonian", "Velocity", "Spin", "DerSpin", "Morb_H", "Morb_Hpm", "morb"], reg, g)
+    tr = U.fn(F_DK, "get_transform_TR", globs=dict(transform_ident=TI, transform_odd=TO), model=False, rewrite_comps=False)
+    inv = U.fn(F_DK, "get_transform_Inv", globs=dict(transform_ident=TI, transform_odd=TO), model=False, rewrite_comps=False)
+    fns = types.SimpleNamespace(Matrix_ln=reg["Matrix_ln"], Matrix_GenDer_ln=reg["Matrix_GenDer_ln"], covariant=types.SimpleNamespace(Dcov=reg["Dcov"]))
+    DK = U.klass(F_DK, "Data_K", globs=dict(np=NP, formula=fns, get_transform_TR=tr, get_transform_Inv=inv, transform_ident=TI, transform_odd=TO, cached_einsum=ce),
+                 rewrite_comps=False, only=("covariant", "V_covariant", "Dcov", "dEig_inv", "D_H"))
+    return reg, DK, tr, inv, TI, TO
+
+
+def _ingredients():
+    """symbolic Hamiltonian-gauge matrices at k, Hermitian where the quantity is (all but the gauge-dependent ones)"""
+    X = {}
+
+    def herm(name, tail):
+        A = rnp.empty((1, NB, NB) + tail, dtype=object)
+        for t in rnp.ndindex(*tail) if tail else [()]:
+            tg = "_".join(map(str, t))
+            for a in range(NB):
+                A[(0, a, a) + t] = SCplx(sreal("%s%s_%d" % (name, tg, a)), 0)
+                for b in range(a + 1, NB):
+                    v = SCplx(sreal("%s%s_%d_%d.re" % (name, tg, a, b)), sreal("%s%s_%d_%d.im" % (name, tg, a, b)))
+                    A[(0, a, b) + t] = v
+                    A[(0, b, a) + t] = v.conj()
+        return A
+    for name, der in (("Ham", 1), ("Ham", 2), ("Ham", 3), ("AA", 0), ("AA", 1), ("SS", 0), ("SS", 1), ("rotAA", 0), ("rotAA", 1), ("CC", 0)):
+        base = {"Ham": (), "AA": (3,), "SS": (3,), "rotAA": (3,), "CC": (3,)}[name]
+        X[(name, der)] = herm("%s%d" % (name, der), base + (3,) * der)
+    X[("BB", 0)] = sym_cplx_array("BB0", (1, NB, NB, 3))          # not Hermitian
+    return X
+
+
+def _mk_data(DK, X, sign_of, conj):
+    d = DK.__new__(DK)
+    d._covariant_quantities, d._bar_quantities = {}, {}
+    d.force_internal_terms_only = False
+    d.E_K = rnp.array([ENERG])
+    Y = {}
+    for key, A in X.items():
+        sg = sign_of(*key)
+        B = rnp.empty(A.shape, dtype=object)
+        for idx in rnp.ndindex(*A.shape):
+            v = SCplx.of(A[idx])
+            B[idx] = (v.conj() if conj else v) * sg
+        Y[key] = B
+    d.Xbar = lambda name, der=0: Y[(name, der)].copy()
+    return d
+
+
+FORMULAS = [("Velocity", {}), ("InvMass", {}), ("Der3E", {}), ("Omega", {"external_terms": False}), ("Omega", {}), ("DerOmega", {"external_terms": False}), ("DerOmega", {}),
+            ("Spin", {}), ("DerSpin", {}), ("Morb_H", {"external_terms": False}), ("Morb_H", {}), ("morb", {})]
+
+
+def _formula_unit(sym, tiers=("quick", "thorough")):
+    @unit("C08", "formula level (%s): trace at -k = declared transformation of the trace at k, real formula code on symbolic matrices" % sym,
+          scope="shape:3 bands with generic energies, band groups [0] and [1,2]; 12 formula variants", expect_min=10, tiers=tiers, timeout_ms=60000,
+          replay=lambda mv, ob: _replay_par(mv, ob), replay_once=True)
+    def _f(U):
+        reg, DK, tr, inv, TI, TO = formula_world(U)
+
+        def body():
+            X = _ingredients()
+
+            def sg_tr(name, der):
+                if name in POSITION_LIKE:
+                    return POSITION_LIKE[name][0] * (-1) ** der
+                return tr(name, der).factor
+
+            def sg_inv(name, der):
+                if name in POSITION_LIKE:
+                    return POSITION_LIKE[name][1] * (-1) ** der
+                return inv(name, der).factor
+            dk = _mk_data(DK, X, lambda n_, d_: 1, False)
+            dm = _mk_data(DK, X, sg_tr if sym == "time reversal" else sg_inv, sym == "time reversal")
+            for cls, kw in FORMULAS:
+                args = (dk,) if cls in ("Velocity", "InvMass", "Spin", "DerSpin") and not kw else (dk,)
+                fk = reg[cls](dk, **kw)
+                fm = reg[cls](dm, **kw)
+                T = fk.transformTR if sym == "time reversal" else fk.transformInv
+                cl = []
+                nz = False
+                for inn, out in ((rnp.array([0]), rnp.array([1, 2])), (rnp.array([1, 2]), rnp.array([0]))):
+                    tk, tm = fk.trace(0, inn, out), fm.trace(0, inn, out)
+                    tk, tm = rnp.asarray(tk), rnp.asarray(tm)
+                    if tk.shape != tm.shape:
+                        cl.append(lift(0) == 1)
+                        continue
+                    want = rnp.empty(tk.shape, dtype=object)
+                    for idx in rnp.ndindex(*tk.shape):
+                        want[idx] = SCplx.of(tk[idx]).re          # the trace is a real quantity (ndarray.real is the identity on object arrays)
+                    want = T(want) if tk.ndim else rnp.asarray(T(want.reshape(1))).reshape(())
+                    for idx in rnp.ndindex(*tk.shape):
+                        cl.append(lift(SCplx.of(tm[idx]).re) == lift(want[idx]))
+                    if not nz:
+                        sv = z3.Solver()
+                        sv.set("timeout", 5000)
+                        sv.add(z3.Or(*[lift(SCplx.of(tk[idx]).re).t != 0 for idx in rnp.ndindex(*tk.shape)]))
+                        nz = sv.check() != z3.unsat
+                if not nz:
+                    cl.append(lift(0) == 1)          # an identically vanishing trace would make the comparison vacuous
+                label = "%s%s" % (cls, " (%s)" % ", ".join("%s=%s" % kv for kv in kw.items()) if kw else "")
+                U.ensure("%s: value at -k = declared %s transformation (factor %+d) of the value at k" % (label, sym, T.factor), land(*cl))
+        U.run(body, check_feasible=False)
+        U.assumption("symmetric model, gauge U(-k) = conj U(k) (time reversal) resp. U(-k) = P U(k) (inversion): Hamiltonian-gauge matrices at -k are "
+                     "+-conj resp. +- those at k with the sign of the parity table; position-like matrices AA, BB: +1 (TR, with conjugation) and -1 (inversion) at order 0")
+        U.external("np.linalg.eigh is not involved: band energies and Hamiltonian-gauge matrices are the symbolic inputs")
+
+
+_formula_unit("time reversal")
+_formula_unit("inversion")
+
+
+def _replay_par(mv, ob):
+    import random
+    r = _real_parities(random.Random(2), 10)
+    return dict(reproduced=bool(r["failures"]), input="installed tabulators / dynamic / static calculators at +-k of random symmetric models", failed=r["failures"][:3])
 
 
 # ------------------------------------------------------------------ bounded stand-in: values at k and -k
@@ -270,13 +433,29 @@ def _calculators():
         "DerBerryCurvature": tabulate.DerBerryCurvature(), "Der2BerryCurvature": tabulate.Der2BerryCurvature(),
         "JDOS": dynamic.JDOS(**kw), "OpticalConductivity": dynamic.OpticalConductivity(**kw), "ShiftCurrent": dynamic.ShiftCurrent(sc_eta=0.1, **kw),
         "InjectionCurrent": dynamic.InjectionCurrent(**kw),
-    }
+    } | _static_calculators()
+
+
+STATIC = ["AHC", "AHC_test", "Ohmic_FermiSea", "Ohmic_FermiSurf", "Hall_classic_FermiSurf", "Hall_classic_FermiSea", "BerryDipole_FermiSurf", "BerryDipole_FermiSea",
+          "BerryDipole_FermiSea_test", "NLDrude_FermiSea", "NLDrude_FermiSurf", "NLDrude_Fermider2", "OmegaOmega", "QuantumMetric_FermiSea"]
+
+
+def _static_calculators():
+    """static calculators whose formulas need only the Hamiltonian and position matrices (single-k value = the k-resolved integrand)"""
+    from wannierberri.calculators import static
+    Ef = rnp.array([-0.3, 0.4, 2.5])
+    out = {}
+    for nm in STATIC:
+        cls = getattr(static, nm, None)
+        if cls is not None:
+            out["static." + nm] = cls(Efermi=Ef, tetra=False)
+    return out
 
 
 def _real_parities(rng, n):
     import wannierberri as wb
     from wannierberri.data_K import Data_K_R
-    fails, cases = [], 0
+    fails, cases, skipped = [], 0, set()
     with contextlib.redirect_stdout(io.StringIO()), warnings.catch_warnings():
         warnings.simplefilter("ignore")
         calcs = _calculators()
@@ -288,7 +467,13 @@ def _real_parities(rng, n):
                 k = rnp.array([rng.uniform(-0.5, 0.5) for _ in range(3)])
                 dp, dm = Data_K_R(s, grid=grid, dK=k), Data_K_R(s, grid=grid, dK=-k)
                 for nm, c in calcs.items():
-                    rp, rm = c(dp), c(dm)
+                    try:
+                        rp, rm = c(dp), c(dm)
+                    except ValueError as e:
+                        if "are not set in the system" in str(e):          # the calculator needs matrices these models do not carry
+                            skipped.add(nm)
+                            continue
+                        raise
                     T = rp.transformTR if kind == "TR" else rp.transformInv
                     want = T(rnp.array(rp.data).copy())
                     got = rnp.array(rm.data)
@@ -297,9 +482,9 @@ def _real_parities(rng, n):
                     if got.shape != want.shape or float(abs(got - want).max()) > 1e-7 * sc:
                         fails.append(dict(input=dict(model=kind, seed=seed, k=k.tolist(), calculator=nm), clause="value(-k) = declared %s transformation of value(k)" % kind,
                                           declared=dict(factor=T.factor, conj=T.conj, transpose_axes=T.transpose_axes), err=float(abs(got - want).max()), scale=sc))
-    return dict(cases=cases, failures=fails, distinct=cases)
+    return dict(cases=cases, failures=fails, distinct=cases, skipped=sorted(skipped))
 
 
 Unit("C08", "values at -k against the declared transformation of the values at k [real code, symmetric random models]", concrete=_real_parities,
-     bounded_desc="installed Data_K_R + 9 tabulators (energy ... second derivative of the Berry curvature, internal / external variants) + JDOS, optical conductivity, shift current, injection current "
+     bounded_desc="installed Data_K_R + 9 tabulators (energy ... second derivative of the Berry curvature, internal / external variants) + JDOS, optical conductivity, shift current, injection current + 14 static calculators (AHC, Ohmic, classical Hall, Berry dipole, non-linear Drude, quantum metric ...) "
                   "at a random k and -k of 2 (quick) / 6 (thorough) random 3-band time-reversal symmetric and inversion-symmetric models (Hamiltonian and position matrices)")
